@@ -83,9 +83,27 @@ def lean_build(ctx, targets):
     return rc == 0, out
 
 
+def prop_files(pid):
+    """Props/<pid>.lean and its companion files Props/<pid>_*.lean (theorems of the same property that need later modules)"""
+    d = os.path.join(LEAN, "NucleoVerif", "Props")
+    comp = sorted(f for f in os.listdir(d) if f.startswith(pid + "_") and f.endswith(".lean"))
+    return [os.path.join(d, f"{pid}.lean")] + [os.path.join(d, f) for f in comp]
+
+
+def prop_modules(pid):
+    return ["NucleoVerif.Props." + os.path.basename(f)[:-5] for f in prop_files(pid)]
+
+
 def theorem_names(pid):
-    """fully qualified names of the theorems declared in Props/<pid>.lean"""
-    src = open(os.path.join(LEAN, "NucleoVerif", "Props", f"{pid}.lean"), encoding="utf-8").read()
+    """fully qualified names of the theorems declared in Props/<pid>.lean and its companion files"""
+    names = []
+    for f in prop_files(pid):
+        names += theorem_names_of(f)
+    return names
+
+
+def theorem_names_of(path):
+    src = open(path, encoding="utf-8").read()
     src_nc = re.sub(r"/-.*?-/", "", src, flags=re.S)
     src_nc = re.sub(r"--.*", "", src_nc)
     names = []
@@ -112,7 +130,7 @@ def lean_sources_for(pid):
         if os.path.isdir(d):
             for r, _, fs in os.walk(d):
                 files += [os.path.join(r, f) for f in fs if f.endswith(".lean")]
-    files.append(os.path.join(LEAN, "NucleoVerif", "Props", f"{pid}.lean"))
+    files += prop_files(pid)
     return files
 
 
@@ -123,7 +141,8 @@ def audit(ctx, pid, extra_modules=()):
     os.makedirs(os.path.join(LEAN, ".audit"), exist_ok=True)
     path = os.path.join(LEAN, ".audit", f"{pid}.lean")
     with open(path, "w") as f:
-        f.write(f"import NucleoVerif.Props.{pid}\n")
+        for m in prop_modules(pid):
+            f.write(f"import {m}\n")
         for m in extra_modules:
             f.write(f"import {m}\n")
         for n in names:
@@ -158,7 +177,10 @@ def audit(ctx, pid, extra_modules=()):
 
 
 def leanchecker(ctx, pid):
-    rc, out = sh(["lake", "env", "leanchecker", f"NucleoVerif.Props.{pid}"], cwd=LEAN, timeout=3600)
+    rc, out = 0, ""
+    for m in prop_modules(pid):
+        rc1, out1 = sh(["lake", "env", "leanchecker", m], cwd=LEAN, timeout=3600)
+        rc, out = (rc or rc1), out + out1
     return rc == 0, out
 
 
@@ -312,7 +334,7 @@ def proof_stage(ctx, extra_targets=()):
         res.update(ok=False, detail="translator: " + tr_out.strip())
     d_ok, d_out = lean_build(ctx, ["nucleo_model"])
     res["driver_ok"] = d_ok
-    p_ok, p_out = lean_build(ctx, [f"NucleoVerif.Props.{pid}"] + list(extra_targets))
+    p_ok, p_out = lean_build(ctx, prop_modules(pid) + list(extra_targets))
     if not p_ok:
         errs = re.findall(r"error: (NucleoVerif/[^\n]*)", p_out)
         res["ok"] = False
@@ -332,7 +354,7 @@ def proof_stage(ctx, extra_targets=()):
             if not ok:
                 res["ok"] = False
                 res["detail"] += " leanchecker failed"
-    ctx.coverage["checker_cmd"] = (f"python3 translator/translate.py && cd lean && lake build NucleoVerif.Props.{pid} && "
+    ctx.coverage["checker_cmd"] = (f"python3 translator/translate.py && cd lean && lake build {' '.join(prop_modules(pid))} && "
                                    f"lake env lean .audit/{pid}.lean   # #print axioms on every theorem")
     return res
 
